@@ -355,6 +355,21 @@ def run(chk):
     okpem = bool(cs) and all(term_of(v) in res_ for v, _s in itp2.watch_returns["keys:VerifyingKey.from_pem"])
     chk.ob("R08.6", "from_pem returns exactly from_der(unpem(text))", okpem, loc="keys:VerifyingKey.from_pem", key="C08|R08.6|pem", detail="from_pem does not return through from_der")
 
+    # the subgroup test computes n * P on a point that may itself declare order n: the scalar
+    # must not be reduced modulo exactly the declared order (n % n == 0 would make the test vacuous)
+    fm = p.func("ellipticcurve:PointJacobi.__mul__")
+    reds = [n for n in ast.walk(fm.node) if isinstance(n, ast.BinOp) and isinstance(n.op, ast.Mod) and isinstance(n.left, ast.Name) and n.left.id == fm.params[1]]
+    okred = True
+    for n in reds:
+        r_ = n.right
+        c_ = None
+        if isinstance(r_, ast.BinOp) and isinstance(r_.op, ast.Mult):
+            for a_, b_ in ((r_.left, r_.right), (r_.right, r_.left)):
+                if isinstance(a_, ast.Attribute) and a_.attr == "__order" and isinstance(b_, ast.Constant):
+                    c_ = b_.value
+        okred &= c_ is not None and c_ >= 2
+    chk.ob("R08.3", "PointJacobi.__mul__ reduces the scalar only modulo c * declared order with c >= 2 (so n * P is not trivially INFINITY for a point declaring order n) [%d reduction(s)]" % len(reds), okred,
+           loc=fm.qname, key="C08|R08.3|mul-reduction", detail="__mul__ reduces the scalar modulo the declared order itself: the subgroup test n * P == INFINITY becomes vacuous for decoded points (they declare order n)")
     # ---------------- shared known finding (C06 R06.4): the subgroup test is evaluated with an
     # identity predicate that conflates Y = 0 with the identity
     from sa.modp import ModP, identity_outcome
